@@ -276,7 +276,7 @@ PLAN["C10"] = {
     "assumptions": [
         "canonization agreement bounded to N <= 2 (quick) / 3 (thorough); both types call the same canonization functions with (N, table, perm)",
         "string forms: C09; bdd_complexity: not compared",
-        "transform/decomposition agreement for N >= 9 rests on C03/C06 per-index triples of both types",
+        "transform/decomposition agreement for N >= 9 rests on C03/C06 per-index triples of both types; constructor agreement for N = 11, 12 rests on C11 (each constructor of each type equals the same population-count oracle)",
     ],
     "scope_note": "Kani: complete per size N = 0..12; symbolic indices for N <= 8.",
 }
